@@ -4,7 +4,20 @@ ProgramsMC == { <<"tx">>, <<"close">>, <<"close", "close">>, <<"tx", "tx">>, <<"
                 <<"tx", "close">>, <<"serve", "rx">>, <<"txc">>, <<"txc", "close">>, <<"txc", "tx">> }
 RECURSIVE SeqsUpTo(_, _)
 SeqsUpTo(S, n) == IF n = 0 THEN {<<>>} ELSE SeqsUpTo(S, n - 1) \cup {Append(s, x) : s \in SeqsUpTo(S, n - 1), x \in S}
-PeerScriptsMC == SeqsUpTo(Items, 2)
+PeerScriptsMC == SeqsUpTo({"stanza", "stanza_reply", "close", "streamerr", "eof", "stanza_herr", "stanza_herr_se", "stanza_heof"}, 2)
 ProgramsQuick == { <<"tx">>, <<"close">>, <<"close", "tx">>, <<"tx", "close">>, <<"serve", "rx">>, <<"txc", "close">> }
-PeerScriptsQuick == SeqsUpTo(Items \ {"stanza"}, 1) \cup {<<"stanza_reply", "close">>, <<"stanza", "stanza_herr">>}
+(* ... and the histories in which the peer sends k >= 1 more elements before one of the reasons for Serve to return *)
+(* (its close, a stream error, the deadline, the end of the transport) - SetCloseDeadline, an event of its own, falls *)
+(* before, between and after them                                                                                   *)
+(* one representative of every class of handler error the specification tells apart *)
+ItemsMC == {"stanza", "stanza_reply", "close", "streamerr", "eof", "stanza_herr", "stanza_herr_weof", "stanza_herr_se", "stanza_heof"}
+PeerScriptsQuick == SeqsUpTo(ItemsMC \ {"stanza"}, 1) \cup {<<"stanza_reply", "close">>, <<"stanza", "stanza_herr">>,
+                                                          <<"stanza", "close">>, <<"stanza", "stanza">>, <<"stanza", "streamerr">>}
+(* closed token writers used again, next to transmit calls and Close of the other process (no Serve: `MCOutput_stale`) *)
+ProgramsStale == { <<"tx">>, <<"close">>, <<"tx", "sclose">>, <<"tx", "stx">>, <<"tx", "stx", "tx">> }
+NoDeadline == dl = "none"     \* (state constraint of that configuration: without Serve the close deadline plays no part)
+PeerScriptsNone == {<<>>}
+(* what the peer sends matters only if somebody serves: otherwise the empty script stands for all of them *)
+MCInit == Init /\ ((\A p \in Procs : \A i \in 1..Len(prog[p]) : prog[p][i] # "serve") => peer = <<>>)
+MCSpec == MCInit /\ [][Next]_vars
 =============================================================================
